@@ -17,6 +17,7 @@ mod ops;
 mod rng;
 mod sched;
 mod store;
+mod txidx;
 mod tower;
 
 extern "C" {
